@@ -188,6 +188,10 @@ pub fn messages() -> Vec<Msg> {
         m.target = s("*");
         v.push(m);
     }
+    // language tags whose primary subtag is not two letters (and the underscore spelling): only whole primary subtags count
+    for al in ["fil-PH,fil;q=0.9,en;q=0.8", "haw", "en_US,fr;q=0.1", "eng,deu;q=0.9,ja;q=0.2", "e,es-419;q=0.3"] {
+        v.push(base_request(vec![("user-agent", "x"), ("accept-language", al)]));
+    }
     v
 }
 /// `m` extended by filler headers so that its header block (literal without indexing, no Huffman) is exactly `target` bytes
